@@ -40,7 +40,8 @@ PROVED = ('for every swarm size, URI list (with repetitions), argument dictionar
           'never raises; the system never deadlocks (some event is enabled until the result is there) and every run '
           'is bounded; sequential calls members one at a time in dictionary order up to the first failure; a failed '
           'open closes every member after all open attempts finished and raises; a second open is refused without '
-          'touching a member.')
+          'touching a member; over any history of actions on one swarm with re-used / aliased argument dictionaries the '
+          'caller\'s objects are unchanged and every member gets a fresh list = own connection + own entry.')
 NOT_PROVED = ('what open_link/close_link do inside SyncCrazyflie (C02); byte-code level preemption inside one statement; '
               'the helper actions built on parallel_safe (get_estimated_positions, reset_estimators).')
 
@@ -624,6 +625,158 @@ def compare(case, impl, mv):
     return None
 
 
+
+# ------------------------------------------------------------------------------------------ histories (reused / aliased argument dictionaries)
+def gen_history(rng, n=None):
+    """Several swarm-wide actions on ONE swarm with argument dictionaries that are reused between calls and whose
+    entries may be one shared list object, lists or tuples."""
+    n = rng.randrange(1, 6) if n is None else n
+    uris = rng.sample(range(1, 40), n)
+    if rng.random() < 0.2:
+        uris.insert(rng.randrange(len(uris) + 1), rng.choice(uris))
+    mem = members_of(uris)
+    nobj = rng.randrange(1, n + 2)
+    objs = [{'kind': rng.choice(['list', 'list', 'tuple']), 'vals': [rng.randrange(-5, 100) for _ in range(rng.randrange(0, 4))]}
+            for _ in range(nobj)]
+    dicts = []
+    for _ in range(rng.randrange(1, 3)):
+        k = rng.random()
+        if k < 0.1:
+            dicts.append({})
+        else:
+            share = rng.random() < 0.4                    # two or more URIs -> the same object
+            d = {}
+            for u in mem:
+                d[u] = rng.randrange(nobj) if not share else rng.choice([0, 0, rng.randrange(nobj)])
+            if rng.random() < 0.2:
+                d[99] = rng.randrange(nobj)               # entry for a URI outside the swarm
+            dicts.append(d)
+    steps = []
+    for _ in range(rng.randrange(2, 5)):
+        steps.append({'call': rng.choice(['sequential', 'parallel', 'parallel_safe']),
+                      'dict': None if rng.random() < 0.1 else rng.randrange(len(dicts))})
+    if len([s for s in steps if s['dict'] is not None]) < 2:
+        steps.append({'call': 'parallel_safe', 'dict': 0})
+        steps.append({'call': 'sequential', 'dict': 0})
+    return {'op': 'history', 'uris': uris, 'objs': objs, 'dicts': dicts, 'steps': steps}
+
+
+def _snapshot(objs, dicts):
+    ids = {id(o): i for i, o in enumerate(objs)}
+    return [[type(o).__name__, [x if type(x) is int else ['scf', getattr(x, 'inst', '?')] for x in o]] for o in objs], \
+           [None if d is None else sorted((u, ids.get(id(v), 'foreign:' + repr(v)[:40])) for u, v in d.items()) for d in dicts]
+
+
+def run_history(case):
+    import cflib.crazyflie.swarm as sw
+
+    class M:
+        def __init__(self, uri, inst):
+            self.uri, self.inst = uri, inst
+
+        def open_link(self):
+            pass
+
+        def close_link(self):
+            pass
+
+    class F:
+        def __init__(self):
+            self.k = 0
+
+        def construct(self, uri):
+            self.k += 1
+            return M(uri, self.k - 1)
+
+    s = sw.Swarm(case['uris'], factory=F())
+    members = list(s._cfs.values())
+    pos = {id(m): k for k, m in enumerate(members)}
+    objs = [list(o['vals']) if o['kind'] == 'list' else tuple(o['vals']) for o in case['objs']]
+    dicts = [{int(u): objs[i] for u, i in d.items()} for d in case['dicts']]
+    before = _snapshot(objs, dicts)
+    lock = threading.Lock()
+    res = {'members': [[m.uri, m.inst] for m in members], 'before': before, 'steps': []}
+    for st in case['steps']:
+        got = []
+
+        def action(*a):
+            with lock:
+                got.append(a)
+        ad = None if st['dict'] is None else dicts[st['dict']]
+        live0 = set(threading.enumerate())
+        try:
+            getattr(s, st['call'])(action, ad)
+            out = 'Returned'
+        except Exception as e:  # noqa
+            out = 'Raised:' + type(e).__name__ + (':' + type(e.__cause__).__name__ if e.__cause__ is not None else '')
+        for t in set(threading.enumerate()) - live0:
+            t.join(3.0)
+        # canonical: argument tuples ordered by the member that is their first argument (when it is one)
+        canon = []
+        for a in got:
+            k = pos.get(id(a[0]), 99) if a else 99
+            canon.append([k, [[1, x.inst] if isinstance(x, M) else ([0, x] if type(x) is int else ['?', repr(x)[:30]]) for x in a]])
+        canon.sort(key=lambda t: (t[0], repr(t[1])))
+        res['steps'].append({'outcome': out, 'args': [c[1] for c in canon], 'after': _snapshot(objs, dicts)})
+    return res
+
+
+def history_term(case):
+    heap = '[' + '; '.join('[' + '; '.join('VInt %s' % coqrun.z(v) for v in o['vals']) + ']' for o in case['objs']) + ']'
+    ds = []
+    for d in case['dicts']:
+        ds.append('(Some [' + '; '.join('(%s, %d%%nat)' % (coqrun.z(int(u)), i) for u, i in d.items()) + '])')
+    calls = '[' + '; '.join('None' if st['dict'] is None else ds[st['dict']] for st in case['steps']) + ']'
+    return '(cfs %s, history_obs %s (cfs %s) %s)' % (coqrun.zlist(case['uris']), heap, coqrun.zlist(case['uris']), calls)
+
+
+def compare_history(case, impl, mv):
+    m = _norm(mv)
+    mem, ob = m[0], m[1]
+    if [list(x) for x in mem] != impl['members']:
+        return ('member dictionary differs', mem, impl['members'])
+    if ob is None:
+        return ('model: history raises KeyError', None, None)
+    args, heap_after = ob[0], ob[1]
+    i_args = [st['args'] for st in impl['steps']]
+    if args != i_args:
+        return ('history: arguments received by the members differ', args, i_args)
+    for st in impl['steps']:
+        got = [[[0, x] if type(x) is int else [1, x[1]] for x in vals] for _, vals in st['after'][0]]
+        if got != heap_after or st['after'][1] != impl['before'][1] or [t for t, _ in st['after'][0]] != [t for t, _ in impl['before'][0]]:
+            return ('history: the caller\'s argument dictionary / lists after a call differ', heap_after, st['after'])
+        if st['outcome'] != 'Returned':
+            return ('history: a call raised', 'Returned', st['outcome'])
+    return None
+
+
+def check_history(case, impl=None):
+    """Property text: each member gets its own connection followed by its own entry, every time; the caller's
+    dictionary and lists are untouched."""
+    impl = impl or run_history(case)
+    mem = members_of(case['uris'])
+    last_inst = {}
+    for i, u in enumerate(case['uris']):
+        last_inst[u] = i
+    for k, st in enumerate(case['steps']):
+        r = impl['steps'][k]
+        d = None if st['dict'] is None else case['dicts'][st['dict']]
+        want = []
+        for u in mem:
+            entry = [] if not d else list(case['objs'][d[u] if u in d else d[str(u)]]['vals'])
+            want.append([[1, last_inst[u]]] + [[0, v] for v in entry])
+        if r['args'] != want or r['outcome'] != 'Returned':
+            return {'class': 'action_called_with_foreign_arguments', 'case': case, 'expected': {'step': k, 'args': want, 'outcome': 'Returned'},
+                    'observed': {'step': k, 'args': r['args'], 'outcome': r['outcome']},
+                    'detail': 'call %d (%s) with a reused/aliased argument dictionary: every member must get its own connection '
+                              'followed by its own entry' % (k, st['call'])}
+        if r['after'] != impl['before']:
+            return {'class': 'args_dict_mutated', 'case': case, 'expected': {'step': k, 'dictionary': impl['before']},
+                    'observed': {'step': k, 'dictionary': r['after']},
+                    'detail': 'the caller\'s argument dictionary (and the lists/tuples in it) must be the same after the call'}
+    return None
+
+
 # ------------------------------------------------------------------------------------------ tie
 def _corpus_cases():
     import glob
@@ -639,7 +792,7 @@ def _corpus_cases():
 
 
 def _gen_cases(ctx, rng):
-    cases = list(_corpus_cases())
+    cases = [c for c in _corpus_cases() if c.get('op') not in ('history',) and c.get('kind') != 'hold']
     # all failing subsets for small swarms, several schedules each
     for n in range(0, ctx.scale(4, 5)):
         for sub in itertools.chain.from_iterable(itertools.combinations(range(n), r) for r in range(n + 1)):
@@ -700,6 +853,32 @@ def tie(ctx):
                 dis.append({'what': d[0], 'case': c, 'model': d[1], 'impl': d[2]})
         elif len(samples) < 3 and n >= 3 and nf >= 1 and c['op'] == 'parallel_safe':
             samples.append({'case': c, 'impl': {k: impl[k] for k in ('calls', 'outcome', 'errors', 'all_done_at_return')}})
+    # ---- histories on one swarm with reused / aliased argument dictionaries (ungated: only arguments and the
+    #      caller's objects are compared)
+    hcases = [c for c in _corpus_cases() if c.get('op') == 'history']
+    for i in range(ctx.scale(250, 3000)):
+        hcases.append(gen_history(rng, n=(i % 4) + 1 if i < 40 else None))
+    hmodel = coqrun.eval_terms(HEADER, [history_term(c) for c in hcases], tag='c19h', shard=100)
+    dist['history_cases'] = 0
+    dist['history_reused_dict_calls'] = 0
+    dist['history_aliased_lists'] = 0
+    for c, mv in zip(hcases, hmodel):
+        if n_bad >= 6:
+            break
+        impl = run_history(c)
+        n_run += 1
+        dist['history_cases'] += 1
+        used = [st['dict'] for st in c['steps'] if st['dict'] is not None]
+        dist['history_reused_dict_calls'] += len(used) - len(set(used))
+        aliased = any(len(set(d.values())) < len(d) for d in c['dicts'] if d)
+        dist['history_aliased_lists'] += 1 if aliased else 0
+        d = compare_history(c, impl, mv)
+        if len(used) > len(set(used)):
+            nontriv += 1
+        if d:
+            n_bad += 1
+            if len(dis) < 12:
+                dis.append({'what': d[0], 'case': c, 'model': d[1], 'impl': d[2]})
     return {
         'evaluations': n_run,
         'distinct_nontrivial': nontriv,
@@ -918,7 +1097,7 @@ def oracle(ctx, deep=False):
         if f and sum(1 for x in fails if x['class'] == f['class']) < 2:
             fails.append(f)
 
-    cases = list(_corpus_cases())
+    cases = [c for c in _corpus_cases() if c.get('op') != 'history' and c.get('kind') != 'hold']
     for size in range(0, ctx.scale(4, 5)):
         for sub in itertools.chain.from_iterable(itertools.combinations(range(size), r) for r in range(size + 1)):
             for op in ('parallel_safe', 'parallel_safe', 'parallel', 'sequential', 'open_links', 'open_twice', 'par_then_par'):
@@ -928,6 +1107,11 @@ def oracle(ctx, deep=False):
                         ['open_twice', 'close_links', 'par_then_par'])
         cases.append(gen_case(rng, op))
     n_bad = 0
+    # reused / aliased argument dictionaries over several calls on one swarm
+    for c in [c for c in _corpus_cases() if c.get('op') == 'history'] + \
+            [gen_history(rng, n=(i % 4) + 1 if i < 20 else None) for i in range(ctx.scale(200, 3000) * (3 if deep else 1))]:
+        n += 1
+        add(check_history(c))
     # the join: members whose action is held back must hold back the caller
     for i in range(ctx.scale(10, 60)):
         size = rng.randrange(2, 6)
@@ -955,4 +1139,6 @@ def replay(payload, ctx):
     c = payload['case']
     if c.get('kind') == 'hold':
         return check_hold(c)
+    if c.get('op') == 'history':
+        return check_history(c)
     return check_property(c, run_impl(c))
